@@ -329,12 +329,24 @@ continue_after(struct k16_hdr *h, const char *mode)
         int nalone = 0, adiff = 0;
 
         k_cur_arena = NULL;
-        IMB_MGR *R = alloc_mb_mgr(mgr->flags);
+        /* two references: the same variant ("alone"), and another architecture with default flags ("correct results":
+         * the flush path of this variant itself may be what is wrong, and then the job alone on this variant is wrong
+         * in the same way) */
+        for (int ref = 0; ref < 2; ref++) {
+        IMB_MGR *R = alloc_mb_mgr(ref == 0 ? mgr->flags : 0);
+        const char *rarch = ref == 0 ? h->arch : (strcmp(h->arch, "sse") == 0 ? "avx512" : "sse");
 
-        k_init_arch(R, h->arch);
+        k_init_arch(R, rarch);
+        if (imb_get_errno(R) != 0) {
+                free_mb_mgr(R);
+                continue;       /* this CPU cannot run the other architecture */
+        }
         for (int i = 0; i < h->s->nitems; i++) {
                 if (c->runs[i] == NULL || !c->runs[i]->done)
                         continue;
+                if (ref == 1 && h->s->items[i].hash == IMB_AUTH_DOCSIS_CRC32)
+                        continue;       /* frames without a defined CRC: the tag bytes differ between architectures
+                                         * (recorded C03 finding, known_findings.txt), not a matter of this property */
                 imbh_run *r = imbh_run_new(R, &h->s->items[i]);
                 IMB_JOB *job = IMB_GET_NEXT_JOB(R);
 
@@ -355,11 +367,13 @@ continue_after(struct k16_hdr *h, const char *mode)
                 if (strcmp(x, y) != 0) {
                         adiff++;
                         if (adiff <= 3)
-                                printf("FAIL alone: item %d\n  here : %.400s\n  alone: %.400s\n", i, y, x);
+                                printf("FAIL %s: item %d\n  here : %.400s\n  %s: %.400s\n", ref ? "reference-arch" : "alone", i, y,
+                                       ref ? rarch : "alone", x);
                 }
                 free(x);
                 free(y);
                 imbh_run_free(r);
+        }
         }
         k_cur_arena = saved;
         fails += adiff;
